@@ -285,13 +285,18 @@ var shortMonthNames = []string{
 // hostport is a simplified no-alloc version of
 // net.SplitHostPort. Since we know that the
 // address values have the correct form we can
-// skip all the error checking.
+// skip all the error checking. Like SplitHostPort
+// it returns an IPv6 host without the brackets.
 func hostport(s string) (host, port string) {
 	if s == "" {
 		return "", ""
 	}
 	n := strings.LastIndexByte(s, ':')
-	return s[:n], s[n+1:]
+	host, port = s[:n], s[n+1:]
+	if len(host) > 1 && host[0] == '[' && host[len(host)-1] == ']' {
+		host = host[1 : len(host)-1]
+	}
+	return host, port
 }
 
 // atoi is a replacement for strconv.Atoi/strconv.FormatInt
